@@ -305,6 +305,7 @@ type runner struct {
 	engs  []engine
 	fonts []text.FontConfiguration
 	n     int // layouts done
+	seen  map[string]int
 }
 
 // one case = paragraph x config, on every engine
@@ -401,12 +402,26 @@ func (rn *runner) check(p para, c config, seed uint64) error {
 				key = "space-inside-span-edge" // KF11-5
 			} else if e.name == "gotext" && p.spaceEndsTextNode() {
 				key = "gotext-space-at-end-of-text-node" // KF11-4
+			} else if e.name == "gotext" && p.endsWithSpace() && jclause == "greedy" && strings.Contains(reason, "wider than the available width") {
+				key = "gotext-overflow-unchecked-before-trailing-space" // KF11-9
 			} else if e.name == "pango" && p.spaceEndsTextNode() && jclause == "greedy" && strings.Contains(reason, "wider than the available width") {
 				key = "pango-unfitting-space-at-end-of-text-node" // KF11-7
 			} else if c.align == "justify" && p.endsWithSpace() && len(impl) == len(spec) && jclause != "greedy" && lastLineOnly(impl, spec) {
 				key = "justified-last-line-trailing-space" // KF11-8
 			} else if c.align == "justify" && unjustifiedBeforeGluedBr(p, impl, spec) {
 				key = "justify-before-glued-br" // KF11-3
+			}
+			// res.Result keeps at most 40 findings: classified (known) classes are recorded twice at most,
+			// so that an unclassified one can never be crowded out
+			if key != jclause {
+				if rn.seen == nil {
+					rn.seen = map[string]int{}
+				}
+				rn.seen[jclause+"|"+key]++
+				rn.out.Hit("classified:" + key)
+				if rn.seen[jclause+"|"+key] > 2 {
+					continue
+				}
 			}
 			rn.out.Add(res.Finding{Kind: "judge", Op: "judge:c11:" + jclause, Input: input, Impl: linesString(impl), Model: linesString(spec),
 				Reason: e.name + ": " + reason, Key: key, Seed: seed})
